@@ -605,6 +605,36 @@ func (e *emitter) c09Access(s *source, rel, goName, leanName string) {
 		goName, rel, leanName, strings.Join(items, ",\n   "))
 }
 
+// c09Assigns emits every assignment of a function (function literals entered) as a typed list (left side, right side).
+func (e *emitter) c09Assigns(s *source, rel, goName, leanName string) {
+	fd := s.findFunc(rel, goName)
+	if fd == nil {
+		e.errors = append(e.errors, "function "+goName+" not found in "+rel)
+		e.printf("/-- MISSING -/\ndef %s : List (String × String) := []\n\n", leanName)
+		return
+	}
+	var items []string
+	ast.Inspect(fd.Body, func(n ast.Node) bool {
+		if a, ok := n.(*ast.AssignStmt); ok {
+			for i, l := range a.Lhs {
+				rhs := ""
+				if i < len(a.Rhs) {
+					rhs = s.src(a.Rhs[i])
+				} else if len(a.Rhs) == 1 {
+					rhs = s.src(a.Rhs[0])
+				}
+				if fl, ok := a.Rhs[min(i, len(a.Rhs)-1)].(*ast.FuncLit); ok {
+					rhs = "func" + s.src(fl.Type)[4:] + "{...}"
+				}
+				items = append(items, fmt.Sprintf("(%s, %s)", leanString(s.src(l)), leanString(rhs)))
+			}
+		}
+		return true
+	})
+	e.printf("/-- assignments of `%s` (%s), in source order -/\ndef %s : List (String × String) :=\n  [%s]\n\n",
+		goName, rel, leanName, strings.Join(items, ", "))
+}
+
 func init() {
 	register("C09", func(s *source, e *emitter) {
 		const tree = "core/search/tree.go"
@@ -740,6 +770,16 @@ func init() {
 		const how = "rest/internal/response/headeronceresponsewriter.go"
 		e.c09DetailDef(s, how, "HeaderOnceResponseWriter.WriteHeader", "headerOnceWriteHeaderStmts")
 		e.c09Cond(s, how, "HeaderOnceResponseWriter.WriteHeader", "condHeaderOnceWrote", c09If(0), []c09Param{{"w.wroteHeader", "wrote", "flag"}})
+		// round 5c: what every option writes (typed assignment lists instead of statement text)
+		for _, o := range [][2]string{{"WithJwt", "withJwtAssigns"}, {"WithJwtTransition", "withJwtTransitionAssigns"},
+			{"WithTimeout", "withTimeoutAssigns"}, {"WithMaxBytes", "withMaxBytesAssigns"}, {"WithPriority", "withPriorityAssigns"},
+			{"WithSSE", "withSSEAssigns"}, {"WithPrefix", "withPrefixAssigns"}, {"WithRouter", "withRouterAssigns"},
+			{"WithChain", "withChainAssigns"}, {"WithNotFoundHandler", "withNotFoundAssigns"}, {"WithFileServer", "withFileServerAssigns"},
+			{"WithCors", "withCorsAssigns"}, {"Server.AddRoutes", "serverAddRoutesAssigns"}} {
+			e.c09Assigns(s, srv, o[0], o[1])
+		}
+		e.c09Assigns(s, eng, "engine.addRoutes", "engineAddRoutesAssigns")
+		e.c09Assigns(s, eng, "engine.use", "engineUseAssigns")
 		// round 5c: the other router wrappers
 		const fsf = "rest/internal/fileserver/filehandler.go"
 		e.c09DetailDef(s, srv, "WithCorsHeaders", "withCorsHeadersStmts")
